@@ -282,8 +282,14 @@ func (bn *baseNode) setModTime(mtime time.Time, u avfs.UserReader) bool {
 
 // setOwner sets the owner of the node.
 func (bn *baseNode) setOwner(uid, gid int) {
-	bn.uid = uid
-	bn.gid = gid
+	// a uid or gid of -1 means to not change that value.
+	if uid != -1 {
+		bn.uid = uid
+	}
+
+	if gid != -1 {
+		bn.gid = gid
+	}
 }
 
 // Unlock unlocks the node.
